@@ -713,3 +713,18 @@ Lemma orig_refuted_unicode_proof :
   exists d, messages (interpret (build_bytes_from_sse_orig [Data d])) <>
             [mkMessage (lit "message") (normalise_newlines d) []].
 Proof. exists [97; 8232; 98]. vm_compute. discriminate. Qed.
+
+
+(* ---------- the charset a response announces (seed C19-12) ---------- *)
+
+Definition content_types (h : list (list N * list N)) : list (list N) :=
+  map snd (filter (fun p => list_eqb (fst p) (lit "content-type")) h).
+
+Lemma announced_charset_proof : forall (asgi : bool) (cs : list N),
+  content_types (sse_headers_cs asgi cs) = [lit "text/event-stream; charset=" ++ cs] /\
+  sse_headers asgi = sse_headers_cs asgi (lit "utf-8").
+Proof.
+  intros asgi cs. split.
+  - destruct asgi; reflexivity.
+  - destruct asgi; reflexivity.
+Qed.
